@@ -81,7 +81,7 @@ class LogsDriver:
         """canonicalise the single line the last action produced"""
         # only lines the driver itself caused count (its messages, or a line that failed to format); whatever else the
         # library chooses to log on its own (scope lifecycle lines) is not part of the property
-        own = ("plain message", "value x and 3", "100% sure", "user ann")
+        own = ("plain message", "value x and 3", "100% sure", "user ann", "value %s and %d")
         lines, self.lines[:] = [x for x in self.lines if x[2].endswith(own) or x[2].startswith("FORMAT-ERROR")], []
         if len(lines) != 1:
             return dict(res=f"{len(lines)} lines: {lines!r}")
@@ -113,7 +113,7 @@ class LogsDriver:
         # the tag: wherever and however the library renders it, the line must carry the trace id and a unique
         # identifier (32-hex tokens or the given id "T<n>%2F%s"), the scope name, and end with the message text
         import re
-        text = next((t for t in ("plain message", "value x and 3", "100% sure", "user ann") if body.endswith(t)), None)
+        text = next((t for t in ("plain message", "value x and 3", "100% sure", "user ann", "value %s and %d") if body.endswith(t)), None)
         if text is None:
             out.update(tr=dict(given=False, s=-1), ident=-1, text="UNPARSEABLE " + body[:80])
             return out
@@ -171,7 +171,7 @@ class LogsDriver:
 
     def _text(self, t):
         return {"plain message": "noargs", "value x and 3": "args",
-                "100% sure": "pct_noargs", "user ann": "mapping"}.get(t, "OTHER " + t[:60])
+                "100% sure": "pct_noargs", "user ann": "mapping", "value %s and %d": "tmpl_noargs"}.get(t, "OTHER " + t[:60])
 
     def apply(self, name, args):
         w = self.w
@@ -247,7 +247,8 @@ class LogsDriver:
             t, lvl, text, exc = args
             fn = {"debug": ctx.log_debug, "info": ctx.log_info, "warning": ctx.log_warning, "error": ctx.log_error}[lvl]
             msg, margs = {"noargs": ("plain message", ()), "args": ("value %s and %d", ("x", 3)),
-                          "pct_noargs": ("100% sure", ()), "mapping": ("user %(name)s", ({"name": "ann"},))}[text]
+                          "pct_noargs": ("100% sure", ()), "mapping": ("user %(name)s", ({"name": "ann"},)),
+                          "tmpl_noargs": ("value %s and %d", ())}[text]
             raised = []
 
             def call():
@@ -353,7 +354,7 @@ def gen_trace(rnd, ntasks=4, nscopes=10, nops=40):
                 alive.append(born)
             else:
                 lvl = rnd.choice(["debug", "info", "warning", "error"])
-                args = [t, lvl, rnd.choice(["noargs", "args", "pct_noargs", "mapping"]), lvl != "info" and rnd.random() < 0.3]
+                args = [t, lvl, rnd.choice(["noargs", "args", "pct_noargs", "mapping", "tmpl_noargs", "args"]), lvl != "info" and rnd.random() < 0.3]
             o = d.apply(name, tuple(args))
             tr.append(dict(ev=name, args=args, obs=o))
     finally:
